@@ -229,6 +229,63 @@ def behaviour(res, rng, tier):
         C.scratch_cleanup(d)
 
 
+def model_guided_search(res, disagreements):
+    """When the expansion and the model disagree on an enum, the accessors the model derives from the documented
+    defaults are exercised with the real macro: one that is missing (does not compile) or refuses the value of its own
+    variant is the failing input."""
+    cf = C.CaseFile(PRELUDE)
+    descs = {}
+    k = 0
+    for dis in disagreements:
+        d, src, model = dis["derive"], dis["source"], dis["model_full"]
+        if not model.startswith("ok ") or "r#" in src:
+            continue
+        entries = [e for e in model[3:].split(";") if e]
+        lines = []
+        if d in ("Unwrap", "TryUnwrap", "IsVariant"):
+            for e in entries:
+                name = e.split("|")[0]
+                lines.append(f"let _ = E::{name};")
+        elif d == "TryInto":
+            for e in entries:
+                head = e.split("|")[0]
+                src_ty, target = head.split(">for", 1)
+                lt = "&'__deriveMoreLifetime"
+                kind = "ref_mut" if src_ty.startswith(lt + "mut") else ("ref" if src_ty.startswith(lt) else "owned")
+                tgt = target.replace(lt + "mut", "&'static mut ").replace(lt, "&'static ")
+                from_ty = {"owned": "E", "ref": "&'static E", "ref_mut": "&'static mut E"}[kind]
+                lines.append(f'check("{k}", "impl TryFrom<{kind} E> for {target} exists", has_impl!({tgt}: TryFrom<{from_ty}>).to_string(), String::from("true"));')
+        if not lines:
+            continue
+        item = re.sub(r"\bString\b", "std::string::String", src)
+        cf.add(k, f"#[derive(derive_more::{d})] pub {item}\npub fn run() {{ {' '.join(lines)} }}", main_call=f"c{k}::run();")
+        descs[str(k)] = f"#[derive({d})] {src}"
+        k += 1
+    if not k:
+        return 0
+    dcr = C.scratch_crate("c11-guided", cf.source('unsafe { println!("DONE checks={} fails={}", CHECKS, FAILS); }'))
+    try:
+        rc, out, err = C.scratch_run(dcr)
+        if "DONE" not in out:
+            rc2, diags, err2 = C.scratch_check(dcr)
+            by, stray = cf.errors_by_case(diags)
+            for cid, errs in list(by.items())[:6]:
+                res.violation("missing-accessor:" + descs[str(cid)], f"{descs[str(cid)]}: an accessor the documented defaults give is not generated: {errs[0][:240]}",
+                              {"cmd": "compile", "source": descs[str(cid)], "errors": errs[:3]})
+            return k
+        seen = set()
+        for l in out.splitlines():
+            if l.startswith("FAIL|"):
+                _, cid, what, got, want = l.split("|", 4)
+                if (cid, what) not in seen:
+                    seen.add((cid, what))
+                    res.violation("missing-impl:" + descs[cid] + "|" + what, f"{descs[cid]}: {what} is {got}, the documented defaults give {want}",
+                                  {"cmd": "behaviour", "source": descs[cid], "what": what, "got": got, "want": want})
+        return k
+    finally:
+        C.scratch_cleanup(dcr)
+
+
 def run(tier):
     res = C.Result("C11", tier)
     rng = C.Rng(C.seed())
@@ -254,8 +311,12 @@ def run(tier):
             if got.startswith("ok"):
                 n_ok += 1
             if ma is not None and got != ma:
-                corr_bad.append({"derive": d, "source": src, "impl": got[:600], "model": ma[:600]})
+                corr_bad.append({"derive": d, "source": src, "impl": got[:600], "model": ma[:600], "model_full": ma})
         checks, nen = behaviour(res, rng, tier)
+        if corr_bad and not res.violations:
+            model_guided_search(res, sorted(corr_bad, key=lambda c: len(c["source"]))[:16])
+        for c in corr_bad:
+            c.pop("model_full", None)
         extra = [("correspondence: accessor sets, patterns, fall-through arms and TryInto groups == model", lean_ok and not corr_bad)]
         cov = {
             "evaluations": len(cases) + checks,
